@@ -478,7 +478,7 @@ def run(ctx):
     nmod, nontriv2 = check_models(ctx, exe2, mcases) if mcases else (0, 0)
     ctx.cov["evaluations"] = len(cases) + nmod
     ctx.cov["distinct_nontrivial"] = nontriv + nontriv2
-    ctx.cov["exhaustive"] = exh
+    ctx.cov["exhaustive_part"] = "; ".join(exh)
     ctx.cov["rule"] = ("non-trivial = distinct merge sequence producing a class of >= 3 trees, or distinct graph with >= 2 components and "
                        ">= 4 stored entries, or distinct generated model with >= 2 islands, an island of >= 2 trees and an unconstrained tree")
     ctx.cov["samples"] = ([cases[len(cases) // 3], cases[-1]] if len(cases) > 3 else cases) + mcases[:2]
